@@ -413,3 +413,35 @@ fn write_to_buffer(
     };
     Ok(action)
 }
+
+#[cfg(swimos_verif)]
+impl Uplinks {
+    /// Canonical (iteration order independent) rendering of the complete state, for use as a
+    /// state key by the model checking harness.
+    pub fn verif_key(&self) -> String {
+        fn render<B>(map: &HashMap<u64, Uplink<B>>, f: impl Fn(&B) -> String) -> String {
+            let mut ids = map.keys().copied().collect::<Vec<_>>();
+            ids.sort_unstable();
+            ids.into_iter()
+                .map(|id| {
+                    let Uplink {
+                        queued,
+                        send_synced,
+                        backpressure,
+                    } = &map[&id];
+                    format!("{}:{}:{}:{}", id, queued, send_synced, f(backpressure))
+                })
+                .collect::<Vec<_>>()
+                .join(",")
+        }
+        format!(
+            "w={};v=[{}];s=[{}];m=[{}];wq={:?};sq={:?}",
+            self.writer.is_some(),
+            render(&self.value_uplinks, |b| format!("{:?}", b)),
+            render(&self.supply_uplinks, |b| format!("{:?}", b)),
+            render(&self.map_uplinks, |b| b.verif_key()),
+            self.write_queue,
+            self.special_queue
+        )
+    }
+}
